@@ -21,6 +21,15 @@ CLAIMED['C01'] = ('bounded symbolic execution of clang LLVM IR of the strided/mo
 CLAIMED['C14'] = ('bounded symbolic execution of clang LLVM IR of the index functions + z3 against functional oracles',
     'Row-major position formula for all extents; Morton pdep == portable == reference bit interleave for all coordinates below 2^floor(64/N), N=1..4; Hilbert bijection/origin/adjacency on 2^k squares, k<=6 quick, <=8 thorough.', '3.C14')
 
+CLAIMED['C02'] = ('bounded symbolic execution of clang LLVM IR of each layer over an uninterpreted-function probe backend + z3 (bit-vectors, IEEE FP theory)',
+    'Per-layer functional obligations for every coordinate and configuration value with N and M independent in 1..4: the layer queries the (uninterpreted) backend exactly at its one-line coordinate map and returns its one-line value map, bit for bit; because the backend is uninterpreted the result cannot depend on what lies beneath, which gives composition by induction (stated).', '3.C02')
+CLAIMED['C10'] = ('bounded symbolic execution of clang LLVM IR of clamp over the probe backend + z3 (bit-vectors, IEEE FP theory)',
+    'For all coordinates of int/unsigned/size_t/float/double (extremes and infinities included, NaN excluded) and all boxes lo<=hi: one backend query at the component-wise clamp, its value returned; N,M in 1..4.', '3.C10')
+CLAIMED['C11'] = ('bounded symbolic execution of clang LLVM IR of backup over the probe backend + z3',
+    'For all coordinates, boxes and defaults: default returned bit for bit with zero backend queries iff some component is outside the closed box, else exactly one query at the coordinate; N,M in 1..4, int/size_t/float/double coordinates.', '3.C11')
+CLAIMED['C04'] = ('bounded symbolic execution of clang LLVM IR of nearest_neighbour + z3 IEEE floating-point theory (bit-precise)',
+    'For every float (|x|<2^23) and double (|x|<2^52) coordinate in (-0.5, E-0.5) the delegated lattice point is within 1/2 per component, decided bit-precisely including one ulp either side of every half-integer; N=1..4.', '3.C04')
+
 NA = {
     'C13': 'decided by the C++ type checker (overload resolution, constraints, template instantiation): there is no IR to execute and no SMT encoding of C++ semantic analysis within reach; enumerating and compiling stacks would be a different technique (DESIGN.md section 5)',
 }
